@@ -2560,6 +2560,8 @@ def call_builtin(it: Interp, name, args, kwargs, node=None):
             return len(enum_members(it, v.cls))
         if isinstance(v, EnumMember) and v.mixin == "str":
             return len(v.value)
+        if isinstance(v, ASet) and getattr(v, "may_hold_duplicates", False):
+            raise Unsupported("the size of a set of symbolic numbers")
         if isinstance(v, (AList, ASet)):
             return len(v.items)
         if isinstance(v, ADict):
@@ -3098,6 +3100,7 @@ def call_builtin_method(it: Interp, recv, name, args, kwargs, node=None):
             return None
         if name == "reverse":
             L.reverse()
+            it.effect("reorder", recv)
             return None
         if name == "sort":
             res = sort_abs(it, list(L), kwargs, node)
@@ -3199,7 +3202,13 @@ def call_builtin_method(it: Interp, recv, name, args, kwargs, node=None):
         if name == "add":
             if isinstance(args[0], (AList, ADict, ASet)):
                 it.raise_builtin("TypeError", "unhashable type", node=node)
-            if not any(it.equal(x, args[0]) for x in S):
+            if type(args[0]).__name__ in ("Lin", "MaxOf"):
+                # a symbolic number: whether it equals an element already there is not known - it is kept (the set may then hold
+                # two names for one value, which maximum / minimum / membership do not notice; its size is not known any more)
+                if not any(x is args[0] or (type(x) is type(args[0]) and repr(x) == repr(args[0])) for x in S):
+                    S.append(args[0])
+                recv.may_hold_duplicates = True
+            elif not any(it.equal(x, args[0]) for x in S):
                 S.append(args[0])
             it.effect("set-add", recv, args[0])
             return None
